@@ -27,7 +27,8 @@ type xUnit struct {
 	Func    string   // "F", or "T.M" for a method of T / *T
 	Globals []string // package-level variables the code may read: they become leading parameters
 	// slice of the body (optional): the top-level statements From..To, each named by the exact first line of
-	// its source text; Outs are the variables handed on; After must be the printed statements that follow.
+	// its source text ("^" = the first statement); Outs are the variables handed on; After must be the printed
+	// statements that follow.
 	From, To string
 	Outs     []string
 	After    []string
